@@ -152,12 +152,16 @@ def parseNumValue (s : Str) : LitRes :=
   | some k =>
     match s with
     | 45 :: t =>
-      -- "-0", "-0K", "-0e5": the literal's "0" is never copied into the buffer (it is supplied
-      -- afterwards, and only to an EMPTY buffer), so `decimal` sees "-", "-" or "-e5";
-      -- `UnmarshalText` fails on these, the error is ignored and the decimal stays NaN
+      -- With a `-` in the buffer the `len(p.buf) == 0` tests of `next`/`scanNumber`/`ParseNum`
+      -- never fire, so the leading "0" of a literal (skipped by `scanNumber`) is never supplied:
+      -- "-0", "-0K", "-0e5", "-0.", "-0.P" leave "-", "-", "-e5", "-.", "-." in the buffer.
+      -- `UnmarshalText` fails on a mantissa without digits, the error is ignored and the decimal
+      -- stays NaN.  (Not reachable from CUE source, where the sign is a unary operator.)
       let bareZeroMul := match t with
         | [48] => true
-        | 48 :: c :: _ => NumLit.isMul c || c == 101 || c == 69
+        | 48 :: c :: _ =>
+          if c == 120 || c == 88 || c == 98 || c == 111 then false
+          else (((readParts t).intDs.drop 1) ++ (readParts t).fracDs).isEmpty
         | _ => false
       if bareZeroMul then .nan else
       match readValue k t with
